@@ -65,10 +65,11 @@ def replay_calls(name, calls):
     cb = CodeBuilder(name)
     stack = []
     names = {}
-    info = {"fresh": [], "user_before": [], "stmt_of_call": []}
+    info = {"fresh": [], "user_before": [], "stmt_of_call": [], "resolved": []}
     seen_user = set()
     for call in calls:
-        call = {k: _subst_names(v, names) for k, v in call.items()}
+        call = {k: (_subst_names(v, names) if k != "as" else v) for k, v in call.items()}
+        info["resolved"].append(call)
         op = call["op"]
         n0 = len(cb.statements)
         if op == "assign":
